@@ -136,8 +136,6 @@ def realOf (a : Expr) : Expr :=
 
 
 
-/-- node construction without any simplification -/
-def plainRb : Rb := fun k aux args => some (.op k aux args)
 
 /-- `MultiFunction.reuse_if_untouched` -/
 def reuse (rb : Rb) (k : Op) (aux : List Nat) (args ops : List Expr) : Option Expr :=
